@@ -1068,7 +1068,8 @@ func ColumnDefault(c *schema.Column) (cty.Value, error) {
 		case strings.ToLower(x.V) == "true", strings.ToLower(x.V) == "false":
 			return cty.BoolVal(strings.ToLower(x.V) == "true"), nil
 		case sqlx.IsLiteralNumber(x.V) && !textlike:
-			if strings.Contains(x.V, ".") {
+			// A fraction or an exponent (e.g. 1e3) is not an integer.
+			if strings.ContainsAny(x.V, ".eE") {
 				f, err := strconv.ParseFloat(x.V, 64)
 				if err != nil {
 					return cty.NilVal, err
